@@ -195,6 +195,14 @@ class ExcClassVal(object):
         self.name = name
 
 
+class OpaqueTypeName(str):
+    """type(x).__name__ of an arbitrary node."""
+    def __new__(cls, text, opaque):
+        o = str.__new__(cls, text)
+        o.opaque = opaque
+        return o
+
+
 class OpaqueType(object):
     def __init__(self, sort, path=None):
         self.sort = sort
@@ -231,6 +239,16 @@ class SymDict(object):
 
     def __repr__(self):
         return 'SymDict(%s)' % self.label
+
+
+class Record(object):
+    """A plain result object of a modelled library call (os.stat): attributes only."""
+    def __init__(self, label, **attrs):
+        self.label = label
+        self.attrs = attrs
+
+    def __repr__(self):
+        return '<%s>' % self.label
 
 
 class ModStub(object):
@@ -432,7 +450,7 @@ class Interp(object):
                 local = a.asname or a.name.split('.')[0]
                 if a.name == 'logging':
                     env[local] = NullLogger()
-                elif a.name in ('sys', 'string', 'builtins', 'os', 'os.path', 're', 'struct', 'io', 'errno'):
+                elif a.name in ('sys', 'string', 'builtins', 'os', 'os.path', 're', 'struct', 'io', 'errno', 'datetime'):
                     env[local] = NativeModule(a.name.split('.')[0], __import__(a.name.split('.')[0]))
                 else:
                     env[local] = Unknown('module ' + a.name)
@@ -721,6 +739,10 @@ class Interp(object):
 
     # ---- attribute access ----------------------------------------------------
     def getattr(self, v, attr, node=None):
+        if isinstance(v, Record):
+            if attr in v.attrs:
+                return v.attrs[attr]
+            raise InterpRaise('AttributeError', '%r has no attribute %r' % (v, attr), node)
         if isinstance(v, ast.AST):
             try:
                 return getattr(v, attr)
@@ -859,6 +881,20 @@ class Interp(object):
         if isinstance(v, ExcClassVal):
             if attr == '__name__':
                 return v.name
+            if attr in ('__mro__', '__bases__'):
+                real = getattr(_builtins, v.name, None)
+                if isinstance(real, type):
+                    seq = real.__mro__ if attr == '__mro__' else real.__bases__
+                    return tuple(ExcClassVal(c.__name__) for c in seq)
+                # a class of the analysed / evaluated code: an Exception subclass
+                return tuple(ExcClassVal(n) for n in ((v.name, 'Exception', 'BaseException', 'object') if attr == '__mro__' else ('Exception',)))
+        if isinstance(v, AstClass):
+            if attr == '__name__':
+                return v.name
+        if isinstance(v, OpaqueType) and attr == '__name__':
+            # the class name of an arbitrary node: none of the names the code compares it with (each comparison is recorded and the
+            # shapes are generated again with a node of that class there); every pattern class is called Match...
+            return OpaqueTypeName('Match<arbitrary pattern>' if v.sort == 'pattern' else '<arbitrary %s>' % v.sort, v)
         if isinstance(v, Unknown):
             raise Uninterpretable('attribute %r of %r' % (attr, v))
         if v is None:
@@ -1126,11 +1162,40 @@ class Interp(object):
     def nat_all(self, args, kwargs):
         return all(self.truth(x, None) for x in self.iterate(args[0]))
 
+    def _below_a_file(self, path):
+        """some proper ancestor of the path is a regular file of the modelled file system (a zip or egg on the search path)"""
+        files = getattr(self, 'fs_plain_files', None) or ()
+        parts = str(path).split('/')
+        return any('/'.join(parts[:i]) in files for i in range(1, len(parts)))
+
     def nat_exists(self, args, kwargs):
         self.effect('probe', args[0])
         if self.fs is not None:
-            return str(args[0]) in self.fs
+            return str(args[0]) in self.fs and not self._below_a_file(args[0])
         return self.decide(('exists', str(args[0])))
+
+    def nat_stat(self, args, kwargs):
+        path = str(args[0])
+        self.effect('probe', path)
+        if self.fs is None:
+            raise Uninterpretable('os.stat without a modelled file system')
+        if self._below_a_file(path):
+            raise InterpRaise('NotADirectoryError', path)      # an OSError, but not FileNotFoundError
+        if path not in self.fs and path not in (getattr(self, 'fs_plain_files', None) or ()):
+            raise InterpRaise('FileNotFoundError', path)
+        return Record('stat result of %s' % path, st_mtime=(self.mtimes or {}).get(path, 0.0), st_size=0)
+
+    def nat_isdir(self, args, kwargs):
+        path = str(args[0])
+        if self.fs is None:
+            return self.decide(('isdir', path))
+        return not self._below_a_file(path) and any(f.startswith(path + '/') for f in self.fs)
+
+    def nat_isfile(self, args, kwargs):
+        path = str(args[0])
+        if self.fs is None:
+            return self.decide(('isfile', path))
+        return (path in self.fs or path in (getattr(self, 'fs_plain_files', None) or ())) and not self._below_a_file(path)
 
     def nat_open(self, args, kwargs):
         self.effect('open', args[0])
@@ -1368,6 +1433,10 @@ class Interp(object):
             if ident is not None and str(ident) not in consts and all(c.isidentifier() for c in consts):
                 r = self.decide(('ident-is', ident.path, consts))
                 return r if isinstance(op, (ast.Eq, ast.In)) else not r
+        if isinstance(op, (ast.Eq, ast.NotEq)) and (isinstance(a, OpaqueTypeName) or isinstance(b, OpaqueTypeName)):
+            tn, other = (a, b) if isinstance(a, OpaqueTypeName) else (b, a)
+            r = self.asked_class(tn.opaque.path, tn.opaque.sort, [AstClass(other)]) if type(other) is str and other in G.NODE_FIELDS else False
+            return r if isinstance(op, ast.Eq) else not r
         if isinstance(op, (ast.Eq, ast.NotEq)):
             if isinstance(a, (Native, ClassRef, AstClass)) and isinstance(b, (Native, ClassRef, AstClass)):
                 r = self.compare(ast.Is(), a, b, node)
@@ -1384,7 +1453,7 @@ class Interp(object):
                     r = True
                 else:
                     r = self.decide(('in', str(a), b.label))
-            elif isinstance(b, (list, tuple, set, dict, str)):
+            elif isinstance(b, (list, tuple, set, frozenset, dict, str)):
                 if isinstance(a, (OpaqueType,)):
                     names = tuple(sorted(getattr(k, 'name', repr(k)) for k in b))
                     if getattr(self, 'opaque_policy', 'fork') == 'none':
